@@ -104,7 +104,8 @@ def ALIAS(target):
 
 
 B = ("bool",)
-S = ("str",)  # non-empty string
+S = ("str",)  # non-empty string path (whitespace-only counts as empty: the validator strips these)
+SR = ("str_raw",)  # "non-empty string" taken literally (whitespace-only is non-empty)
 SN = ("str?",)  # non-empty string or null
 COOLDOWNS = ("cooldowns",)  # mapping op-kind (str) -> int >= 0
 
@@ -153,9 +154,9 @@ TREE = {
         "reader": {"mode": E("flat", "partition", "auto")},
         "quality": {
             "enabled": B, "shadow": B, "trace_dir": S, "redact": B,
-            "normalizer": {"enabled": B, "case": E("lower"), "unicode": E("NFKC"), "stopwords": S,
+            "normalizer": {"enabled": B, "case": E("lower"), "unicode": E("NFKC"), "stopwords": SR,
                            "stemmer": E("none", "porter-lite"), "min_token_len": I(1)},
-            "aliasing": {"enabled": B, "map_path": S, "max_expansions_per_token": I(0)},
+            "aliasing": {"enabled": B, "map_path": SR, "max_expansions_per_token": I(0)},
             "lexical": {"enabled": B, "bm25": {"k1": F(), "b": F(), "doclen_floor": I(0)},
                         "bm25_k1": FREE(1.2), "bm25_b": FREE(0.75), "stopwords": FREE("en-basic", "none")},
             "fusion": {"enabled": B, "mode": FREE("score_interp", "rank"), "alpha_semantic": F(),
@@ -173,7 +174,7 @@ TREE = {
         "temp": F(0, 1),
         "allow_reflection": B,
         "apply_ops": B,
-        "dialogue": {"template": S, "include_top_k_snippets": I(0)},
+        "dialogue": {"template": SR, "include_top_k_snippets": I(0)},
         "policy": {"tau_high": F(0, 1), "tau_low": F(0, 1), "epsilon_edit": F(0, 1)},
         "llm": {"provider": E("fixture", "ollama"), "model": S, "endpoint": S, "max_tokens": I(1), "temp": F(0, 1),
                 "timeout_ms": I(1), "fixtures": {"enabled": B, "path": SN}},
@@ -390,7 +391,7 @@ def _valid_values(spec, big=False):
         return list(spec[1])
     if kind == "bool":
         return [True, False]
-    if kind == "str":
+    if kind in ("str", "str_raw"):
         return ["x", "./p/q", "logs/quality", "Ünï"]
     if kind == "str?":
         return [None, "fixtures/llm.jsonl"]
@@ -435,7 +436,7 @@ def _outside_values(spec):
         return [max(vals) + 1, min(vals) - 1, 3]
     if kind == "bool":
         return ["yes", "off", 1, 0, "maybe"]
-    if kind in ("str", "str?"):
+    if kind in ("str", "str?", "str_raw"):
         return ["", "   ", 5]
     if kind == "strlist":
         return [["bogus"], [1], "owner", [""], []]
@@ -584,6 +585,20 @@ KNOWN_HINT = "validator-messages-depend-on-hashseed"
 KNOWN_CLI_PATH = "cli-validate-drops-path"
 KNOWN_CLI_JSON = "cli-validate-json-sniffs-error-output"
 
+KNOWN_NONMAPPING = "validator-nonmapping-perf-quality-leaks"
+KNOWN_PASSTHROUGH = "validator-passthrough-leaves-unvalidated"
+KNOWN_PAR_T2 = "runnable-parallel-t2-fanout-typeerror"
+KNOWN_RECENT = "t2-exact-recent-days-overflow"
+
+
+def nonmapping_leak(norm) -> bool:
+    """The normalised config still carries a truthy non-mapping where the perf / t2.quality section belongs."""
+    if not isinstance(norm, dict):
+        return False
+    perf, q = norm.get("perf"), get_path(norm, ("t2", "quality"))
+    return bool((perf and not isinstance(perf, dict)) or (q and not isinstance(q, dict)))
+
+
 _HINT_RE = re.compile(r" \(did you mean '[^'\n]*'\)")
 _POLICY_SET_RE = re.compile(r"scheduler\.policy must be one of \{[^}\n]*\}")
 
@@ -647,6 +662,8 @@ def holds(spec, v) -> bool:
         return isinstance(v, bool)
     if kind == "str":
         return isinstance(v, str) and bool(v.strip())
+    if kind == "str_raw":
+        return isinstance(v, str) and bool(v)
     if kind == "str?":
         return v is None or (isinstance(v, str) and bool(v.strip()))
     if kind == "strlist":
@@ -869,6 +886,8 @@ def check_cli_inprocess(cfg, case, rec, tmpdir):
             raise Violation(f"CLI main({flags}) exited via SystemExit({e.code})", case, "cli-systemexit")
         except Exception as e:
             if _lev_typeerror(e, arg) and _is_known(rec, KNOWN_NONSTR):
+                return "known"
+            if isinstance(e, AttributeError) and view["ok"] and nonmapping_leak(view["norm"]) and _is_known(rec, KNOWN_NONMAPPING):
                 return "known"
             fr = _innermost(e)
             raise Violation(f"CLI main({flags}) raised {type(e).__name__}: {e}", case, f"cli-raises:{type(e).__name__}@{fr.name if fr else '?'}")
@@ -1102,6 +1121,13 @@ def check_cli_case(cfg, hashseed="0", rec=None):
                 raise Violation(f"in-process validation crashes (known) but the CLI reports exit={rc} {out[:80]!r}", case, "cli-verdict")
             return ["cli_known_nonstring"]
         labels.append("accepted" if view["ok"] else "rejected")
+        if view["ok"] and nonmapping_leak(view["norm"]):
+            rc, out, err = _run_cli(["clematis.scripts.validate", path], work, hashseed)
+            if rc != 0 and "AttributeError" in err:
+                if not _is_known(rec, KNOWN_NONMAPPING):
+                    raise Violation(f"CLI crashes on an accepted config (non-mapping perf / t2.quality survives validation): {err[-200:]!r}",
+                                    case, "cli-raises:AttributeError@main")
+                return labels + ["cli_known_nonmapping"]
 
         # (c) the packaged shim the umbrella command delegates to
         rc, out, err = _run_cli(["clematis.scripts.validate", path], work, hashseed)
@@ -1356,10 +1382,6 @@ def needs_network(cfg) -> bool:
     return str(t3.get("backend")) == "llm" and str((t3.get("llm") or {}).get("provider")) == "ollama"
 
 
-KNOWN_PASSTHROUGH = "validator-passthrough-leaves-unvalidated"
-KNOWN_NONMAPPING = "validator-nonmapping-perf-quality-leaks"
-KNOWN_PAR_T2 = "runnable-parallel-t2-fanout-typeerror"
-
 # stage functions that read the pass-through leaves with int()/float()/.get()/iteration/JSON-sort (root cause frames)
 _PASSTHROUGH_FRAMES = {"t1.py:t1_propagate", "t1.py:_t1_one_graph", "t1.py:_compute_decay", "core.py:t2_semantic", "cache.py:stable_key",
                        "core.py:_init_index_from_cfg", "t1.py:_get_cache"}
@@ -1383,6 +1405,8 @@ def _known_runnable(case, cfg, e, rec) -> bool:
     perf, q = cfg.get("perf"), get_path(cfg, ("t2", "quality"))
     if isinstance(e, AttributeError) and ((perf and not isinstance(perf, dict)) or (q and not isinstance(q, dict))):
         return _is_known(rec, KNOWN_NONMAPPING)
+    if frame == "index.py:_filter_recent" and isinstance(e, OverflowError):
+        return _is_known(rec, KNOWN_RECENT)
     if frame in _PASSTHROUGH_FRAMES and isinstance(e, (TypeError, ValueError, AttributeError, OverflowError)) and _undocumented_passthrough(case):
         return _is_known(rec, KNOWN_PASSTHROUGH)
     return False
@@ -1624,7 +1648,7 @@ def probe_nan():
 
 
 def probe_hint():
-    return bool(check_hashseed_batch([{"t5": 1}, {"t1": {"cach": 1}}, {"grap": 1}]))
+    return bool(check_hashseed_batch([{"t5": 1}, {"t1": {"cach": 1}}, {"grap": 1}, {"scheduler": {"policy": "x"}}]))
 
 
 def probe_cli_path():
@@ -1678,6 +1702,10 @@ def probe_nonmapping():
     return _probe_turn({"perf": 5}, AttributeError)
 
 
+def probe_recent():
+    return _probe_turn({"t2": {"exact_recent_days": 2 ** 63}}, OverflowError)
+
+
 def probe_par_t2():
     return _probe_turn({"perf": {"enabled": True, "parallel": {"enabled": True, "max_workers": 2, "t2": True}}}, TypeError)
 
@@ -1686,6 +1714,7 @@ KNOWN_PROBES = {
     KNOWN_PASSTHROUGH: probe_passthrough,
     KNOWN_NONMAPPING: probe_nonmapping,
     KNOWN_PAR_T2: probe_par_t2,
+    KNOWN_RECENT: probe_recent,
     KNOWN_NONSTR: probe_nonstring_key,
     KNOWN_NAN: probe_nan,
     KNOWN_HINT: probe_hint,
